@@ -18,7 +18,7 @@ func init() {
 		Title: "A shared configuration can be used concurrently without interference",
 		Rule: "race-detector build; one shared IPAConfig; a seed-determined list of operation instances of 14 kinds (Commit, CreateMultiProof with n up to 64 > W, CheckMultiProof incl. invalid statements, Create+CheckIPAProof, MultiScalar/MultiExp with split paths, element operations, batch helpers, transcripts, fr functions using the shared big.Int pool, point codecs, fp square roots, parallel.Execute, GenerateRandomPoints, a second NewIPASettings) " +
 			"is executed by G in {8,32,64} goroutines (quick {8,32}) on private argument objects sharing one still-cold configuration, and then alone on a second, fresh configuration; several goroutines running the same instance at the same time; events {goroutine, instance, call/return sequence numbers from one atomic counter, output digest} are recorded at the client boundary; " +
-			"oracles: every output equals the sequential output, zero race reports, configuration and package-constant fingerprints (incl. all 350 MB of tables) unchanged, bounded progress; GOMAXPROCS {1,2,4,16} x NumCPU {2,4,16} with H7 delays; a class is (operation kind, G, GOMAXPROCS, NumCPU); non-trivial = executed while at least one other operation was in flight",
+			"oracles: every output equals the sequential output, zero race reports, configuration and package-constant fingerprints (incl. all 350 MB of tables) unchanged, bounded progress; GOMAXPROCS {1,2,4,16} x NumCPU {2,4,16} with H7 delays; additional cold-start child processes whose very first library calls are made by 20 goroutines at once (lazily initialised package state), compared with the same calls made alone afterwards; APIs that only read their arguments are also called on objects shared by all goroutines; a class is (operation kind, G, GOMAXPROCS, NumCPU); non-trivial = executed while at least one other operation was in flight",
 		HangIsViolation:  true,
 		CaseLimitS:       map[string]int{"quick": 600, "thorough": 2400},
 		Technique:        "Go race detector over a concurrent stress workload + per-operation differential against sequentially precomputed outputs (exact linearizability check for a stateless API) + state fingerprints + runtime deadlock detector/watchdog",
@@ -36,6 +36,10 @@ func init() {
 				for i, k := range cfg {
 					out = append(out, Child{TimeoutS: pick(tier, 900, 7200), Flavour: "race", NCPU: k[0], GOMAXPROCS: k[1], Shard: i, NShards: len(cfg), Params: map[string]string{"sched": fmt.Sprint(1 + i%2)}})
 				}
+				// cold-start processes: the first library calls of the process are concurrent
+				for i, k := range []int{2, 4, 3} {
+					out = append(out, Child{TimeoutS: 400, Flavour: "race", NCPU: k, GOMAXPROCS: []int{0, 8, 0}[i], Shard: 10 + i, NShards: 1, Params: map[string]string{"part": "coldstart"}})
+				}
 				return out
 			}
 			i := 0
@@ -46,6 +50,9 @@ func init() {
 						i++
 					}
 				}
+			}
+			for i := 0; i < 16; i++ {
+				out = append(out, Child{TimeoutS: 1200, Flavour: "race", NCPU: 1 + i%5, GOMAXPROCS: []int{0, 8, 2, 16}[i%4], Shard: 100 + i, NShards: 1, Params: map[string]string{"part": "coldstart"}})
 			}
 			return out
 		},
@@ -63,7 +70,69 @@ type c12event struct {
 	panicked  interface{}
 }
 
+// c12cold: the very first library calls of a fresh process are made by many goroutines at once (lazily initialised
+// package state - tables built on first use, sync.Once/initOnce paths, pools - sees its first use concurrently);
+// afterwards the same instances are executed alone in the warm process and must give the same outputs.
+func c12cold(c *mon.Ctx) {
+	w, gmp := runtime.NumCPU(), runtime.GOMAXPROCS(0)
+	o := newOpCtx(nil, c.Seed*1000+int64(c.Shard), c.Rand(fmt.Sprintf("c12cold/%d", c.Shard))) // uses the reference only
+	kinds := []int{opSqrt, opCodec, opElement, opMSM, opFrPool, opTranscript, opCRS, opBatch, opExecute, opSharedInputs}
+	const G = 20
+	events := make([][]c12event, G)
+	c.Case("coldstart/concurrent-first-use", func() {
+		var wg sync.WaitGroup
+		start := make(chan struct{})
+		var seq int64
+		for g := 0; g < G; g++ {
+			g := g
+			wg.Add(1)
+			go func() {
+				defer wg.Done()
+				<-start
+				for i := 0; i < len(kinds); i++ {
+					in := c12inst{kinds[(g+i)%len(kinds)], i % 3} // goroutines g and g+10 make the same first call
+					ev := c12event{g: g, inst: in, call: atomic.AddInt64(&seq, 1)}
+					p, _ := mon.Try(func() { ev.digest = o.exec(in.kind, in.k) })
+					ev.panicked = p
+					ev.ret = atomic.AddInt64(&seq, 1)
+					events[g] = append(events[g], ev)
+				}
+			}()
+		}
+		close(start)
+		wg.Wait()
+	})
+	c.Case("coldstart/compare-with-warm-sequential", func() {
+		expected := map[c12inst]string{}
+		for g := range events {
+			for _, ev := range events[g] {
+				if _, ok := expected[ev.inst]; !ok {
+					expected[ev.inst] = o.exec(ev.inst.kind, ev.inst.k)
+				}
+				name := opNames[ev.inst.kind]
+				switch {
+				case ev.panicked != nil:
+					c.Fail("panic-at-cold-start/"+name, fmt.Sprintf("%s panicked when it was among the first library calls of the process, made concurrently: %v", name, ev.panicked), nil)
+				case ev.digest != expected[ev.inst]:
+					c.Fail("cold-start-output-differs/"+name, fmt.Sprintf("%s instance %d returned a different result as one of the concurrent first calls of the process (goroutine %d) than later when executed alone", name, ev.inst.k, ev.g), map[string]string{"cold": ev.digest, "warm": expected[ev.inst]})
+				}
+				c.Count("concurrent_operations", 1)
+				c.Count("operations_overlapping_others", 1)
+				c.Count("cold_start_operations", 1)
+				c.Eval(fmt.Sprintf("coldstart|%s|P=%d|W=%d", name, gmp, w), true)
+			}
+		}
+		c.Count("fingerprint_checks", 1)
+	})
+	c.Count("hook.multiproof.group.send", 1)
+	c.Count("hook.msm.chunk.send", 1)
+}
+
 func runC12(c *mon.Ctx) {
+	if c.Config["part"] == "coldstart" {
+		c12cold(c)
+		return
+	}
 	env := GetEnv() // config A: stays cold until the concurrent phase (lazily initialised state is part of what is monitored)
 	w, gmp := runtime.NumCPU(), runtime.GOMAXPROCS(0)
 	mode := 1
